@@ -235,6 +235,15 @@ def candidates(cname, cls, spec, oname):
         return "generic", MI_NODUMP
     if oname in GENERIC:
         return "generic", GENERIC[oname]
+    if "." in oname:
+        # round 5: a public mutator of an owned Cached object, called on it through the owner
+        # (`o.rp_x.set_fixed_threshold(…)`, `o.crp_xy.x_embedded = …`)
+        comp, sub = oname.split(".", 1)
+        if sub in GENERIC:
+            return "generic", [(lambda o, rng, g=g, comp=comp: g(getattr(o, comp), rng))
+                               for g in GENERIC[sub]]
+        if not sub.startswith("set:"):
+            return "zero-arg", [lambda o, rng, comp=comp, sub=sub: getattr(getattr(o, comp), sub)()]
     if not oname.startswith("set:") and "." not in oname:
         z = _zero_arg(cls, oname)
         if z:
